@@ -38,7 +38,8 @@ def lexer_accounting(check: Check, repo: Repo) -> None:
             consts = _const_strs(n.test)
             if consts and all(set(c) <= {"\n", "\r"} for c in consts) and isinstance(n.test.ops[0], (ast.Eq, ast.In)):
                 branches.append(n)
-    if len(branches) < 2:
+    covered = set("".join(c for b in branches for c in _const_strs(b.test)))
+    if not branches or covered != {"\n", "\r"}:
         raise AnalysisError("read_next_token: LF/CR branches not found")
     for br in branches:
         _branch_paths(check, rule, cfg, br, line_inc="self.line += 1", start_assign="self.line_start = position",
@@ -54,7 +55,7 @@ def lexer_accounting(check: Check, repo: Repo) -> None:
                 brs.append(n)
     if len(brs) != 1:
         raise AnalysisError(f"read_block_string: expected one LF/CR branch, found {len(brs)}")
-    _branch_paths(check, rule, cfg, brs[0], line_inc="block_lines.append(current_line)",
+    _branch_paths(check, rule, cfg, brs[0], line_inc="block_lines.append(",
                   start_assign=("chunk_start = line_start = position", "line_start = position"),
                   what="read_block_string branch `char in CR LF`")
     # fold at the closing quotes
@@ -103,7 +104,9 @@ def _branch_paths(check: Check, rule: str, cfg: CFG, br: ast.If, line_inc: str, 
         return unparse(stmt)
 
     def is_stmt(txts):
-        return lambda n: n.kind == "stmt" and n.ast is not None and _canon(n.ast) in txts
+        # a text ending in "(" is a prefix: `block_lines.append(` matches whatever is appended
+        return lambda n: n.kind == "stmt" and n.ast is not None and (
+            _canon(n.ast) in txts or any(t.endswith("(") and _canon(n.ast).startswith(t) for t in txts))
 
     def avoid_path(avoid) -> bool:
         """exists a path from branch start to the loop head / function exit avoiding `avoid`?"""
@@ -306,6 +309,20 @@ def _render_lemmas(sub: ast.Subscript, fn: ast.AST, repo: Repo) -> tuple[bool, s
                     for f in flow.facts_at(sub):
                         if f.kind == "cond" and f.pol and f.text.startswith(f"len({x}) >"):
                             return True, f"lemma: non-empty chunk list because {f.text}"
+        # (c') the same chunk list built by a loop: xs = []; for i in range(0, len(x), k): xs.append(x[i:i+k])
+        if isinstance(src, ast.List) and not src.elts and isinstance(sub.slice, ast.Constant) and sub.slice.value == 0:
+            for lp in walk_body(fn):
+                if isinstance(lp, ast.For) and isinstance(lp.iter, ast.Call) and call_name(lp.iter) == "range" and len(lp.iter.args) == 3 \
+                        and lp.lineno < sub.lineno and any(
+                            isinstance(c, ast.Call) and isinstance(c.func, ast.Attribute) and c.func.attr == "append" and unparse(c.func.value) == base.id
+                            for st in lp.body[:1] for c in ast.walk(st)) and isinstance(lp.body[0], ast.Expr):
+                    a0, a1, _ = lp.iter.args
+                    if isinstance(a0, ast.Constant) and a0.value == 0 and isinstance(a1, ast.Call) and call_name(a1) == "len":
+                        x = unparse(a1.args[0])
+                        flow = bounds.FlowCache().flow(fn)
+                        for f in flow.facts_at(sub):
+                            if f.kind == "cond" and f.pol and f.text.startswith(f"len({x}) >"):
+                                return True, f"lemma: the loop appends at least one chunk because {f.text}"
     return False, "no guard, annotation or lemma discharges this read"
 
 
